@@ -110,9 +110,11 @@ class RequestHandlerBase(MethodView):
                 except KeyError:
                     pass
         options = OptionsRepository.convert_cgi_options(args, defaults=defaults)
-        self.check_option_values(options)
         if features is not None:
             options.remove_unsupported_features(features)
+        # check the values that are going to be used: an option the manifest does
+        # not support has been put back to its (stream) default at this point
+        self.check_option_values(options)
         options.add_field('mode', mode)
         return options
 
